@@ -629,18 +629,17 @@ def parse_tree_to_objgraph(
                 # with matched concrete meta-class down the inheritance tree.
                 # Abstract meta-class should never be instantiated.
                 if len(node) > 1:
-                    try:
-                        return process_node(
-                            next(
-                                n
-                                for n in node
-                                if type(n) is not Terminal
-                                and n.rule._tx_class is not RULE_MATCH
-                            )
-                        )  # noqa
-                    except StopIteration:
-                        # All nodes are match rules, do concatenation
-                        return "".join(str(n) for n in node)
+                    # The result is the first reference to a non-match rule.
+                    # If the alternative has none, use the first reference to
+                    # a match rule.
+                    non_terminals = [n for n in node if type(n) is not Terminal]
+                    for n in non_terminals:
+                        if n.rule._tx_class._tx_type != RULE_MATCH:
+                            return process_node(n)
+                    if non_terminals:
+                        return process_node(non_terminals[0])
+                    # All nodes are simple matches, do concatenation
+                    return "".join(str(n) for n in node)
                 else:
                     return process_node(node[0])
             elif mclass._tx_type == RULE_MATCH:
